@@ -344,3 +344,30 @@ PROPS['C10']['obligations'] += [
     O('C10.store_other_states', 'harness.c07_equiv', 'update_metadata_other_states', 120, 600,
       'UpdateMetadata refused on missing/immutable studies without changing anything'),
 ]
+
+
+_C05_BOUND = ('active study; trial 1 absent/REQUESTED/ACTIVE/STOPPING/SUCCEEDED; optional bystander trial; crash index k over '
+              'every SQL statement, commit and rollback of the call, plus "right after the acknowledgement"')
+PROPS['C05'] = dict(
+    level='model_checking',
+    encoded=['SQLDataStore.* (real sqlalchemy, real sqlite FILE)', 'VizierServicer.CompleteTrial/AddTrialMeasurement/StopTrial/'
+             'DeleteTrial/CreateTrial/SetStudyState/UpdateMetadata/DeleteStudy/SuggestTrials/CheckTrialEarlyStoppingState/CreateStudy'],
+    bounds=_C05_BOUND,
+    outside='power-loss reordering below the file system; crashes in the middle of a single sqlite write; more than one '
+            'crash per run; pre-states with more than 2 trials',
+    assumptions=['a killed process leaves exactly the database file + journal side files as they are at that instant'],
+    obligations=[
+        O('C05.crash_atomic_s%d' % k, 'harness.c05_crash', 'crash_atomic', 300, 900,
+          'single-resource calls: after a crash at ANY SQL event the restarted server sees the call fully applied or not at '
+          'all (fully once acknowledged); all records readable; legal states; suggest+complete still work',
+          _C05_BOUND + '; ops slice %d/4' % k, env={'VERIF_SLICE': str(k)}) for k in range(4)
+    ] + [
+        O('C05.crash_multi', 'harness.c05_crash', 'crash_multi', None, 1500,
+          'multi-statement calls (SuggestTrials, CheckTrialEarlyStoppingState, CreateStudy): records readable, ids unique, '
+          'legal states, clients can continue', _C05_BOUND),
+    ] + [
+        O('C05.crash_multi_s%d' % k, 'harness.c05_crash', 'crash_multi', 300, 900,
+          'multi-statement calls (SuggestTrials, CheckTrialEarlyStoppingState, CreateStudy): records readable, ids unique, '
+          'legal states, clients can continue', _C05_BOUND + '; slice %d/6' % k, env={'VERIF_SLICE': str(k)})
+        for k in (0, 1, 2, 4)
+    ])
